@@ -1,0 +1,10 @@
+//go:build !verif
+// +build !verif
+
+package cache
+
+import "os"
+
+// verifPoint is a verification hook; it does nothing unless the package is
+// built with the `verif` tag.
+func verifPoint(name string, f *os.File, hd *Header) {}
